@@ -40,7 +40,7 @@ pub fn stream_case_strategy() -> BoxedStrategy<StreamCase> {
         4u8..=5,
         proptest::collection::vec(any::<u16>(), 0..40),
     )
-        .prop_map(|(appends, late, roles, recursive, shape, n_peers, sched)| StreamCase { appends, late, roles, recursive: (recursive == 0) as u8, shape: (shape == 0) as u8, n_peers, sched })
+        .prop_map(|(appends, late, roles, recursive, shape, n_peers, sched)| StreamCase { appends, late, roles, recursive: recursive % 3, shape: (shape == 0) as u8, n_peers, sched })
         .boxed()
 }
 
@@ -67,7 +67,7 @@ pub fn build(case: &StreamCase) -> Scenario {
     let mut appends: Option<I> = None;
     for (j, a) in case.appends.iter().enumerate() {
         let func = format!("a{}", j);
-        services.insert(func.clone(), Ret::Const(json!({"a": format!("early-{}", j), "n": j % 2})));
+        services.insert(func.clone(), Ret::Const(json!({"a": format!("early-{}", j), "n": j % 2, "p": peers[pick(a[1].wrapping_mul(31), n)].id})));
         let c = lit_call(&peers[pick(a[0], n)].id, "app", &func, vec![], Some("$s"));
         appends = Some(match appends {
             None => c,
@@ -83,15 +83,17 @@ pub fn build(case: &StreamCase) -> Scenario {
     let mut late: Vec<I> = vec![];
     for (j, a) in case.late.iter().enumerate() {
         let func = format!("late{}", j);
-        services.insert(func.clone(), Ret::Const(json!({"a": format!("late-{}", j), "n": 5})));
+        services.insert(func.clone(), Ret::Const(json!({"a": format!("late-{}", j), "n": 5, "p": peers[0].id})));
         late.push(lit_call(&peers[pick(a[0], n)].id, "app", &func, vec![], Some("$s")));
     }
     services.insert("p1".into(), Ret::Str);
     services.insert("p2".into(), Ret::Str);
     services.insert("ploc".into(), Ret::Str);
     services.insert("v".into(), Ret::Str);
-    // the recursive append depends on its trigger (unique value); its n == 1 ends the recursion
-    services.insert("rec".into(), Ret::Obj(peers[0].id.clone()));
+    // the recursive append depends on its trigger (unique value) and goes 2-3 levels deep; each
+    // level runs on the peer named by its trigger, so the folding peer replays some rounds from
+    // merged data and produces others itself
+    services.insert("rec".into(), Ret::RecChain(2 + (case.roles[3] % 2) as u8, peers.iter().map(|p| p.id.clone()).collect()));
     let canon = I::Canon { peer: Arg::Str(peers[d].id.clone()), src: "$s".into(), dst: "#can".into() };
     let probes = I::par(lit_call(&peers[q1].id, "probe", "p1", vec![Arg::var("#can")], None), lit_call(&peers[q2].id, "probe", "p2", vec![Arg::var("#can")], None));
     let mut after_canon = probes;
@@ -99,9 +101,16 @@ pub fn build(case: &StreamCase) -> Scenario {
         after_canon = I::par(after_canon, l);
     }
     let visit = lit_call(&peers[f].id, "visit", "v", vec![Arg::var("i")], None);
-    let body = if case.recursive == 1 {
+    let rec_target = if case.recursive == 2 {
+        // multi-peer recursion: every level runs on the peer named by its trigger
+        Arg::Var { name: "i".into(), lens: vec![LensStep::Field("p".into())], length: false }
+    } else {
+        // all recursion levels run on the folding peer itself
+        Arg::Str(peers[f].id.clone())
+    };
+    let body = if case.recursive >= 1 {
         // elements with n == 0 trigger one more append (whose n == 7 ends the recursion)
-        let rec = I::xor(I::Match(Arg::Var { name: "i".into(), lens: vec![LensStep::Field("n".into())], length: false }, Arg::Num(0), Box::new(lit_call(&peers[f].id, "app", "rec", vec![Arg::var("i")], Some("$s")))), I::Null);
+        let rec = I::xor(I::Match(Arg::Var { name: "i".into(), lens: vec![LensStep::Field("n".into())], length: false }, Arg::Num(0), Box::new(I::Call { peer: rec_target, svc: Arg::Str("app".into()), func: Arg::Str("rec".into()), args: vec![Arg::var("i")], out: Some("$s".into()) })), I::Null);
         I::seq(visit, rec)
     } else {
         visit
@@ -175,6 +184,11 @@ fn run_scenario(case: &StreamCase) -> (Scenario, Vec<RunRecord>, Vec<PeerState>,
         (std::mem::take(&mut sim.log), std::mem::take(&mut sim.peers), q)
     };
     (sc, log, peers, quiescent)
+}
+
+pub fn run_for_trace(case: &StreamCase) -> (Scenario, Vec<RunRecord>) {
+    let (sc, log, _, _) = run_scenario(case);
+    (sc, log)
 }
 
 fn multiset(v: &[Value]) -> BTreeMap<String, usize> {
@@ -315,13 +329,13 @@ impl Property for C13 {
         "C13"
     }
     fn rule(&self) -> String {
-        "the same scenario scripts: appends from several peers (plus, in a third of the cases, a recursive append made by the fold body for some elements), `(fold $s i (par|seq (call F (\"visit\" \"v\") [i]) (next i)))` at peer F, then a local `(canon F $s #loc)` with a probe. Oracles: (1) F never visits a value twice (no two visit requests with the same argument); (2) with the par-next shape, once everything is delivered the visited values are exactly the stream values in F's final data (including late and recursive appends), each once; (3) the local canon holds exactly the stream values F's data held before the canon entry in the run that produced it (as multisets: nothing duplicated or lost by merging), and the probe receives them. Non-trivial = F received the stream values in >= 2 deliveries and visited >= 3 values; distinct by (script, schedule) hash".into()
+        "the same scenario scripts: appends from several peers, `(fold $s i (par|seq BODY (next i)))` at peer F, then a local `(canon F $s #loc)` with a probe. BODY is `(call F (\"visit\" \"v\") [i])`, in two thirds of the cases followed by a recursive append `(xor (match i.$.n 0 (call T (\"app\" \"rec\") [i] $s)) (null))` whose result depends on its trigger and recurses 2-3 levels deep; T is F itself (mode 1) or the peer named by the element, `i.$.p` (mode 2: recursion levels produced on several peers and merged back). Oracles: (1) F never visits a value twice (no two visit requests with the same argument); (2) with the par-next shape, once everything is delivered the visited values are exactly the stream values in F's final data (including late and recursive appends), each once; (3) the local canon holds exactly the stream values F's data held before the canon entry in the run that produced it (as multisets: nothing duplicated or lost by merging), and the probe receives them. Non-trivial = F received the stream values in >= 2 deliveries and visited >= 3 values; distinct by (script, schedule) hash".into()
     }
     fn assumptions(&self) -> Vec<String> {
-        vec!["values are unique by construction (one service function per append; the recursive append echoes its trigger)".into(), "the seq-next shape may legitimately stop at a pending visit: completeness (2) is asserted for the par-next shape only".into()]
+        vec!["values are unique by construction (one service function per append; the recursive append is a hash of its trigger and level)".into(), "the seq-next shape may legitimately stop at a pending visit: completeness (2) is asserted for the par-next shape only".into()]
     }
     fn bounds(&self, _tier: Tier) -> Value {
-        json!({"early_appends": "1..4", "late_appends": "0..2", "peers": "4..5", "schedule_len": 40, "recursive": "1/3 of cases"})
+        json!({"early_appends": "1..4", "late_appends": "0..2", "peers": "4..5", "schedule_len": 40, "recursive": "none / on F / on the peer named by the element, a third each; depth 2..3"})
     }
     fn cases(&self, tier: Tier) -> u32 {
         tier.pick(40_000, 800_000)
@@ -398,10 +412,11 @@ impl Property for C13 {
                 let have = stream_before(&d.data, d.data.trace.len());
                 rep.classes.push("visits_complete_checked".into());
                 let (mv, mh) = (multiset(&visited), multiset(&have));
-                if mv != mh {
-                    let missing: Vec<&String> = mh.keys().filter(|k| !mv.contains_key(*k)).collect();
-                    let extra: Vec<&String> = mv.keys().filter(|k| !mh.contains_key(*k)).collect();
-                    let mut v = viol("C13:visits-differ-from-stream", format!("everything was delivered; F's stream holds {} values but the fold visited {}: not visited {:?}, visited but not in the stream {:?}", have.len(), visited.len(), missing, extra), &sc, &log, log.len());
+                let missing: Vec<&String> = mh.keys().filter(|k| !mv.contains_key(*k)).collect();
+                let extra: Vec<&String> = mv.keys().filter(|k| !mh.contains_key(*k)).collect();
+                if !missing.is_empty() || !extra.is_empty() {
+                    let sig = "C13:visits-differ-from-stream";
+                    let mut v = viol(sig, format!("everything was delivered; F's stream holds {} values but the fold visited {}: not visited {:?}, visited but not in the stream {:?}", have.len(), visited.len(), missing, extra), &sc, &log, log.len());
                     v.detail["trace"] = json!(crate::model::show::trace(&d.data));
                     return CaseResult::Violation(v, rep);
                 }
